@@ -578,14 +578,28 @@ def h_getitem_next_at(cls, dims):
 
 
 @guard
-def h_getitem_next_range(cls, dims, step):
+def h_getitem_next_range(cls, dims, step, advanced=False):
     lens = dims
-    """x[:, start:stop:step]: per list exactly the CPython slice of that list, in order; start / stop any int64 (None included)"""
+    """x[:, start:stop:step]: per list exactly the CPython slice of that list, in order; start / stop any int64 (None included).  With
+    `advanced` (a range after an index array, x[rows, start:stop:step, ...]): list i is paired with entry advanced[i] of the index arrays, and
+    every item kept from list i must carry that same pairing down to the content (the pairing handed on has one entry per kept item)"""
     from .c18 import slice_sel, KNONE
-    nc = NodeCtx(['LOA', 'LA', 'RA', 'IDX', 'CNT', 'UTL', 'KD', 'IDS', 'SLC'], [], unwind=max(10, sum(lens) + len(lens) + 6))
+    nc = NodeCtx(['LOA', 'LA', 'RA', 'IDX', 'CNT', 'UTL', 'KD', 'IDS', 'SLC'], [], unwind=max(10, 2 * sum(lens) + len(lens) + 8))
     this, lists, starts, offs, short = list_node(nc, cls, lens)
     lens = node_lens(cls, lens)
     tail, adv = empty_tail_and_advanced(nc)
+    av = []
+    if advanced:
+        if not lens:
+            raise Unsupported('no lists')
+        a1 = z3.Array('advdata', z3.BitVecSort(64), z3.BitVecSort(64))
+        av = [z3.Select(a1, BV(i)) for i in range(len(lens))]
+        for v in av:
+            nc.m.assume(v >= 0, v <= 2 ** 20)
+        advdata = nc.m.array('advdata', ('i', 64), len(lens), const=True)
+        cells_ = {}
+        nc.index_cells(cells_, 0, advdata, BV(0), BV(len(lens)))
+        adv = nc.m.record('advanced2', cells_, const=True)
     a, b = nc.m.bv('start'), nc.m.bv('stop')
     sl = nc.m.record('slicerange', {0: (nc.vptr_of('N7awkward10SliceRangeE', 'SLC'), 8), 8: (a, 8), 16: (b, 8), 24: (BV(step), 8)}, const=True)
     nc.m.record('ret', {})
@@ -618,6 +632,22 @@ def h_getitem_next_range(cls, dims, step):
                 obls.append(('list %d keeps exactly len(range(*slice.indices(len))) items' % i, z3.And(g, spans[i][1] != cnt)))
                 obls.append(('item p of result list %d is element first + p * step of list %d' % (i, i), z3.And(g, p >= 0, p < cnt, el(spans[i][0] + p) != starts[i] + first + p * estep)))
             obls.append(('the result lists lie inside the carried content', z3.And(g, extent > ln)))
+            if advanced and len(spans) == len(lens):
+                handed = [(pc, t[0]) for pc, nm, t in out.trace if nm == 'getitem_next(null head)' and t and t[0] is not None]
+                obls.append(('the content is asked once, with a pairing', z3.And(g, z3.BoolVal(len(handed) != 1))))
+                for pc, ap in handed:
+                    ao = out.mem.o[ap.obj]
+                    dptr, doff, dlen = ao.cells[ap.off + 8][0], ao.cells[ap.off + 32][0], ao.cells[ap.off + 40][0]
+                    total = BV(0)
+                    for i, L in enumerate(lens):
+                        total = total + slice_sel(BV(L), a, b, estep)[1]
+                    obls.append(('the pairing handed on has one entry per kept item', z3.And(g, pc, dlen != total)))
+                    dcs = [(gg, q) for gg, q in nodeh.ptr_cases(dptr) if q.obj is not None]
+                    for i, L in enumerate(lens):
+                        first, cnt = slice_sel(BV(L), a, b, estep)
+                        for gg, q in dcs:
+                            val = z3.Select(out.mem.o[q.obj].arr, z3.simplify(q.off + doff + (spans[i][0] - (spans[0][0] if spans else 0)) + p))
+                            obls.append(('every item kept from list %d carries the pairing of list %d' % (i, i), z3.And(g, pc, gg, p >= 0, p < cnt, val != av[i])))
 
     def replay(model, ent):
         A, B = model.eval(a, model_completion=True).as_signed_long(), model.eval(b, model_completion=True).as_signed_long()
@@ -626,12 +656,23 @@ def h_getitem_next_range(cls, dims, step):
             return False, 'content too long to replay', {}
         head, inp = node_program(nc, model, lc)
         tok = lambda v: 'NONE' if v == KNONE else str(v)
-        prog = head + 'getitem 2 range NONE NONE NONE range %s %s %s' % (tok(A), tok(B), tok(step))
         pyv = lambda v: None if v == KNONE else v
+        if advanced:
+            # the whole pipeline x[rows, start:stop:step, cols] with rows = 0..n-1 (so the pairing is the identity) over elements that are pairs:
+            # result[i] = [x[i][q][cols[i]] for q in the range]: a pairing handed on wrongly picks another list's column
+            n_ = len(inp)
+            ntoks = head.split()
+            cnt_ = int(ntoks[1])
+            head2 = 'i64 %s regular 2 0 ' % fullnative.ints([10 * (k // 2) + k % 2 for k in range(2 * cnt_)]) + ' '.join(ntoks[2 + cnt_:]) + ' '
+            cols = [i % 2 for i in range(n_)]
+            prog = head2 + 'getitem 3 array %s range %s %s %s array %s' % (fullnative.ints(range(n_)), tok(A), tok(B), tok(step), fullnative.ints(cols))
+            exp = [[10 * e + cols[i] for e in lst[slice(pyv(A), pyv(B), pyv(step))]] for i, lst in enumerate(inp)]
+            return akrun_check(prog, exp, '%s lists %s of pairs [rows, %s:%s:%s, cols=%s]' % (cls, inp, tok(A), tok(B), tok(step), cols))
+        prog = head + 'getitem 2 range NONE NONE NONE range %s %s %s' % (tok(A), tok(B), tok(step))
         exp = [lst[slice(pyv(A), pyv(B), pyv(step))] for lst in inp]
         return akrun_check(prog, exp, '%s lists %s [:, %s:%s:%s]' % (cls, inp, tok(A), tok(B), tok(step)))
     small = lambda v: z3.Or(v == KNONE, z3.And(v >= -6, v <= 6))
-    return mdischarge(nc.m, '%s::getitem_next(SliceRange) shape=%s step=%s' % (cls, ','.join(map(str, dims)), 'None' if step == KNONE else step), obls,
+    return mdischarge(nc.m, '%s::getitem_next(SliceRange%s) shape=%s step=%s' % (cls, ', advanced' if advanced else '', ','.join(map(str, dims)), 'None' if step == KNONE else step), obls,
                       [('non-zero offset origin', offs[0] > 0)] if cls != 'RegularArray' else [('negative start', a < 0)], replay=replay, prefer=[small(a), small(b), nc.lencontent <= 24] + [o <= 20 for o in offs],
                       extra=dict(bounds='list lengths %s and step %s concrete (case split); start, stop any int64 incl. None; offsets origin symbolic' % (lens, step)))
 
@@ -3277,6 +3318,8 @@ def jobs_advanced(tier):
     js = []
     for cls in ('ListOffsetArray64', 'ListArray64', 'RegularArray'):
         for lens in (regs if cls == 'RegularArray' else shapes):
+            # (a range *after* an index array only spreads the pairing, which no later item may consume - "advanced indexes separated by basic
+            # indexes is not permitted" - so h_getitem_next_range(advanced=True) is not scheduled: nothing observable depends on it)
             for nidx in ((2,) if tier == 'quick' else (1, 2, 3)):
                 js.append((h_getitem_next_array_advanced, (cls, lens, nidx), 1800))
     return js
